@@ -448,28 +448,43 @@ fn lzw_encode(data: &[u8], params: &LZWFlateParams) -> Result<Vec<u8>> {
 pub fn fax_decode(data: &[u8], params: &CCITTFaxDecodeParams) -> Result<Vec<u8>> {
     use fax::{Color, decoder::{pels, decode_g4}};
 
-    if params.k < 0 {
-        let columns = params.columns as usize;
-        let rows = params.rows as usize;
-
-        let height = if params.rows == 0 { None } else { Some(params.rows as u16)};
-        let mut buf = Vec::with_capacity(columns * rows);
-        decode_g4(data.iter().cloned(), columns as u16, height, |line| {
-            buf.extend(pels(line, columns as u16).map(|c| match c {
-                Color::Black => 0,
-                Color::White => 255
-            }));
-            assert_eq!(buf.len() % columns, 0, "len={}, columns={}", buf.len(), columns);
-        }).ok_or(PdfError::Other { msg: "faxdecode failed".into() })?;
-        assert_eq!(buf.len() % columns, 0, "len={}, columns={}", buf.len(), columns);
-
-        if rows != 0 && buf.len() != columns * rows {
-            bail!("decoded length does not match (expected {rows}∙{columns}, got {})", buf.len());
-        }
-        Ok(buf)
-    } else {
-        unimplemented!()
+    if params.k >= 0 {
+        bail!("CCITTFaxDecode with K = {} (Group 3) is not supported", params.k);
     }
+    // the decoder counts columns and rows in 16 bits
+    let columns = match u16::try_from(params.columns) {
+        Ok(c) if c > 0 => c,
+        _ => bail!("CCITTFaxDecode: /Columns {} is not in 1 ..= 65535", params.columns)
+    };
+    let height = match params.rows {
+        0 => None,
+        rows => Some(u16::try_from(rows).map_err(|_| other!("CCITTFaxDecode: /Rows {} is not in 0 ..= 65535", rows))?)
+    };
+    let width = columns as usize;
+
+    // the buffer grows with the decoded lines; it is not sized by the parameters
+    let mut buf = Vec::new();
+    let mut lines_ok = true;
+    decode_g4(data.iter().cloned(), columns, height, |line| {
+        buf.extend(pels(line, columns).map(|c| match c {
+            Color::Black => 0,
+            Color::White => 255
+        }));
+        if buf.len() % width != 0 {
+            lines_ok = false;
+        }
+    }).ok_or(PdfError::Other { msg: "faxdecode failed".into() })?;
+    if !lines_ok || buf.len() % width != 0 {
+        bail!("faxdecode: a decoded line does not have {} columns (len={})", width, buf.len());
+    }
+
+    if let Some(rows) = height {
+        let rows = rows as usize;
+        if buf.len() != width * rows {
+            bail!("decoded length does not match (expected {rows}∙{width}, got {})", buf.len());
+        }
+    }
+    Ok(buf)
 }
 
 pub fn run_length_decode(data: &[u8]) -> Result<Vec<u8>> {
